@@ -57,6 +57,35 @@ def tlc_mc(module, cfg, work, workers=4, timeout=1500, simulate=None, want_repla
                 wall=round(time.time() - t0, 1), replays=replays, untaken=untaken, tail=out[-1500:])
 
 
+def apalache_ind(work, cinit, expect_ok):
+    """Inductive-invariant check of spec/apalache/FramerAbs.tla (unbounded message length, real PMAX):
+    Init => IndInv and IndInv /\\ Next => IndInv'.  Returns dict like tlc_mc."""
+    out_dir = os.path.join(work, 'apalache_' + cinit)
+    spec = os.path.join(R.SPEC, 'apalache', 'FramerAbs.tla')
+    t0 = time.time()
+    res = []
+    for init, length in (('Init', 0), ('IndInit', 1)):
+        try:
+            r = subprocess.run(['apalache-mc', 'check', '--cinit=' + cinit, '--init=' + init, '--inv=IndInv', '--length=%d' % length,
+                                '--out-dir=' + out_dir, spec], cwd=work, stdout=subprocess.PIPE, stderr=subprocess.STDOUT, text=True, timeout=900)
+        except subprocess.TimeoutExpired:
+            raise R.ToolError('apalache timed out on FramerAbs (' + cinit + ')')
+        ok = 'EXITCODE: OK' in r.stdout
+        viol = 'violated' in r.stdout
+        if not ok and not viol:
+            raise R.ToolError('apalache failed on FramerAbs (%s):\n%s' % (cinit, r.stdout[-1500:]))
+        res.append(ok)
+    import shutil
+    shutil.rmtree(out_dir, ignore_errors=True)
+    allok = all(res)
+    if expect_ok and not allok:
+        raise R.ToolError('FramerAbs: the inductive invariant does not hold for the framer design')
+    if not expect_ok and allok:
+        raise R.ToolError('FramerAbs: deviation %s did not break the inductive invariant (vacuous?)' % cinit)
+    return dict(name='FramerAbs/' + cinit + ' (Apalache, inductive)', module='FramerAbs', distinct=0, generated=0, wall=round(time.time() - t0, 1),
+                expect='pass' if expect_ok else 'fail', obligations=2, discharged=sum(1 for x in res if x))
+
+
 # (module, cfg, expect)   expect: 'pass' | 'fail'
 def models_for(pid, tier):
     deep = tier != 'quick'
@@ -276,6 +305,12 @@ def run_models(pid, tier, work, jobs, rng):
             emit.append(('reader', ex.submit(tlc_mc, 'MC_Reader', 'MC_Reader_sim.cfg', work, 1, 1500, ('num=%d' % (300 if tier == 'quick' else 3000), 80), True)))
         if pid in ('C12', 'C11', 'C02'):
             emit.append(('flow', ex.submit(tlc_mc, 'MC_Flow', 'MC_Flow_emit.cfg', work, 1, 1500, None if tier != 'quick' else ('num=400', 60), True)))
+        apal = []
+        if pid == 'C04':
+            apal = [ex.submit(apalache_ind, work, 'ConstInit', True), ex.submit(apalache_ind, work, 'ConstInitHdr', False),
+                    ex.submit(apalache_ind, work, 'ConstInitNoCloser', False)]
+        for f in apal:
+            info['models'].append(f.result())
         for expect, f in futs:
             r = f.result()
             r['expect'] = expect
